@@ -846,6 +846,10 @@ func (ψ *PoKofSignaturePoCorrectForm) Verify(c *math.Curve, ν, hε *math.G1, g
 }
 
 func (ψ *PoKofSignaturePoCorrectForm) checkcommitmentForm(c *math.Curve, e *math.Zr, g2 *math.G2, X *math.G2, κ *math.G2, Y []*math.G2) error {
+	if len(ψ.x) > len(Y) {
+		return fmt.Errorf("proof has %d responses but the public key has only %d components", len(ψ.x), len(Y))
+	}
+
 	left := g2.Mul(ψ.y)
 	for i := 0; i < len(ψ.x); i++ {
 		left.Add(Y[i].Mul(ψ.x[i]))
